@@ -33,6 +33,7 @@ type Ctx struct {
 }
 
 func NewCtx(p *prog.Program, tier string) *Ctx {
+	fieldAlias = p.FieldRenames()
 	return &Ctx{P: p, Tier: tier, reach: map[string]*prog.Reach{}, dyn: newDynTyper(p), Stats: map[string]int{}, joinCache: map[*ssa.Function]bool{}}
 }
 
